@@ -230,6 +230,31 @@ func c01Mutants(r *rand.Rand, sc *signCase, sig *pipeline.Signature, kp, other, 
 		}
 	}
 
+	// ---- line endings are content: a carriage return added before a line feed, or taken away
+	if i := strings.Index(sc.Step.Command, "\n"); i >= 0 {
+		m = base("command:cr-added-before-lf")
+		m.Step.Command = sc.Step.Command[:i] + "\r" + sc.Step.Command[i:]
+		if i > 0 && sc.Step.Command[i-1] == '\r' {
+			m.Kind = "command:cr-removed-before-lf"
+			m.Step.Command = sc.Step.Command[:i-1] + sc.Step.Command[i:]
+		}
+		add(m)
+		m = base("command:lf-replaced-by-escaped-n")
+		m.Step.Command = sc.Step.Command[:i] + `\n` + sc.Step.Command[i+1:]
+		add(m)
+	}
+	m = base("command:trailing-line-break-added")
+	m.Step.Command = sc.Step.Command + []string{"\n", "\r", "\r\n"}[r.IntN(3)]
+	add(m)
+	for k, v := range sc.Step.Env {
+		if j := strings.Index(v, "\n"); j >= 0 {
+			m = base("env:cr-added-before-lf")
+			m.Step.Env[k] = v[:j] + "\r" + v[j:]
+			add(m)
+			break
+		}
+	}
+
 	// ---- command
 	m = base("command:rune")
 	m.Step.Command = mutateRune(r, m.Step.Command)
